@@ -430,6 +430,129 @@ fn trailing_typed_case(index: u64, st: &mut Stats) {
     }
 }
 
+// ---- statement-position layouts: a line break inside brackets is insignificant wherever the brackets stand -
+// in an assignment target, an index, a compound assignment, a condition, a call statement, a definition.
+const BRACKET_STATEMENTS: &[&str] = &[
+    "pick(p, q).x = 5",
+    "pick(p, q).x += 1",
+    "pick(p, q).x *= idx(5, 2)",
+    "p.x = idx(pick(p, q).x, 1)",
+    "p.x = pick(p, q).x -> idx(1)",
+    "print(idx(pick(p, q).x, 1))",
+    "print' idx(pick(p, q).x, 1)",
+    "pick(p, q).x -> idx(1) -> print()",
+    "z := idx(pick(p, q).x, 1)",
+    "z :: (idx(3, 1), [idx(4, 1), 2])",
+    "z: (int, [int]) = (idx(3, 1), [idx(4, 1), 2])",
+    "if idx(3, 1) > 1 do\n        p.x = 7\n    end",
+    "if idx(3, 1) > 5 do\n        p.x = 7\n    elif idx(3, 1) > 1 do\n        p.x = 8\n    end",
+    "loop idx(p.x, 1) < 3 do\n        p.x += 1\n    end",
+    "case list.get(p.l, idx(2, 1)) do\n        Just v ->\n            p.x = v\n        end\n        None ->\n            p.x = 0\n        end\n    end",
+    "z := (idx(3, 1), idx(4, 1))[1]",
+    "p.x = (pick(p, q).x, (idx(3, 1), 4))[1][0]",
+    "p.x += (idx(3, 1), idx(4, 1))[0]",
+    "zb: Bx(int) = Bx { v: idx(3, 1) }",
+    "zf: fn (int, int), [int] -> int = fn a: (int, int), b: [int] -> int do a[0] end",
+    "list.push(pick(p, q).l, idx(9, 1))",
+    "pick(p, q).l -> list.push(idx(9, 1))",
+    "q.x = if idx(3, 1) > 1 do\n        4\n    else do\n        5\n    end",
+];
+
+/// `mode` bit 0: break after every opening ( or [; bit 1: after every comma inside brackets; bit 2: before every closing bracket.
+fn break_brackets(stmt: &str, mode: u8) -> String {
+    let mut out = String::new();
+    let mut depth = 0i32;
+    let cs: Vec<char> = stmt.chars().collect();
+    let mut i = 0;
+    let nl = |out: &mut String, depth: i32| {
+        while out.ends_with(' ') {
+            out.pop();
+        }
+        out.push('\n');
+        out.push_str(&"    ".repeat(2 + depth.max(0) as usize));
+    };
+    while i < cs.len() {
+        let c = cs[i];
+        match c {
+            '(' | '[' => {
+                // `print' f(..)`-style and `()` with nothing inside stay as they are
+                let empty = i + 1 < cs.len() && (cs[i + 1] == ')' || cs[i + 1] == ']');
+                out.push(c);
+                depth += 1;
+                if mode & 1 != 0 && !empty {
+                    nl(&mut out, depth);
+                    while i + 1 < cs.len() && cs[i + 1] == ' ' {
+                        i += 1;
+                    }
+                }
+            }
+            ')' | ']' => {
+                let empty = i > 0 && (cs[i - 1] == '(' || cs[i - 1] == '[');
+                depth -= 1;
+                if mode & 4 != 0 && !empty {
+                    nl(&mut out, depth);
+                }
+                out.push(c);
+            }
+            ',' if depth > 0 => {
+                out.push(c);
+                if mode & 2 != 0 {
+                    nl(&mut out, depth);
+                    while i + 1 < cs.len() && cs[i + 1] == ' ' {
+                        i += 1;
+                    }
+                }
+            }
+            _ => out.push(c),
+        }
+        i += 1;
+    }
+    out
+}
+
+fn bracket_statement_case(index: u64, st: &mut Stats) {
+    let stmt = BRACKET_STATEMENTS[index as usize % BRACKET_STATEMENTS.len()];
+    let render = |s: &str| {
+        format!(
+            "Pt :: blob {{\n    x: int,\n    l: [int],\n}}\n\nBx :: blob(*T) {{\n    v: *T,\n}}\n\npick :: fn a: Pt, b: Pt -> Pt do\n    a\nend\n\nidx :: fn a: int, b: int -> int do\n    a - b\nend\n\nstart :: fn do\n    p := Pt {{ x: 1, l: [1, 2, 3] }}\n    q := Pt {{ x: 2, l: [4, 5, 6] }}\n    {}\n    print(p.x)\n    print(p.l)\n    print(q.x)\nend\n",
+            s
+        )
+    };
+    st.count("bracket_statement_programs");
+    let base_text = render(stmt);
+    let base = match compile_budgeted(&base_text) {
+        Compiled::Ok(b) => b,
+        Compiled::Fuel => return,
+        other => {
+            st.violation(Violation { signature: "rel:bracket-statement-template-rejected".into(), hazard: None, case: index, detail: J::obj().with("program", J::s(base_text)).with("observed", J::s(format!("{} {}", other.brief(), other.first_error().map(|e| e.display.clone()).unwrap_or_default()))) });
+            return;
+        }
+    };
+    for mode in 1..8u8 {
+        let text = render(&break_brackets(stmt, mode));
+        if text == base_text {
+            continue;
+        }
+        st.count("bracket_statement_layouts_compiled");
+        let same = match compile_budgeted(&text) {
+            Compiled::Ok(b) => b == base,
+            Compiled::Fuel => continue,
+            _ => false,
+        };
+        if !same {
+            st.violation(Violation {
+                signature: "rel:line-break-inside-brackets-of-a-statement".into(),
+                hazard: None,
+                case: index,
+                detail: J::obj().with("statement", J::s(stmt)).with("one_line_program", J::s(base_text.clone())).with("broken_program", J::s(text.clone())).with("observed", J::s({ let r = compile_budgeted(&text); format!("{} {}", r.brief(), r.first_error().map(|e| e.display.clone()).unwrap_or_default()) })),
+            });
+            return;
+        }
+    }
+    st.count("bracket_statement_programs_layout_independent");
+    st.nontrivial(hash64(base_text.as_bytes()));
+}
+
 pub struct C14;
 
 impl Check for C14 {
@@ -442,6 +565,9 @@ impl Check for C14 {
     fn run_case(&self, ctx: &Ctx, index: u64, st: &mut Stats) {
         if (index as usize) < TRAILING_TYPED.len() * 2 {
             trailing_typed_case(index, st);
+        }
+        if (index as usize) < BRACKET_STATEMENTS.len() {
+            bracket_statement_case(index, st);
         }
         let mut rng = Rng::for_case(ctx.seed, "C14", index);
         let depth = 2 + (index % 2) as u32;
